@@ -3,7 +3,7 @@
            Model/VrlPathLex.v (path fragment of src/parser/lex.rs + parser.lalrpop).  Statements only. *)
 From Coq Require Import List NArith ZArith Bool String.
 From VRL Require Import Base.Bytes Base.Value Base.Lit Model.PathText Model.VrlPathLex
-                        Proofs.PathTextProofs Proofs.VrlPathProofs.
+                        Proofs.PathTextProofs Proofs.VrlPathProofs Proofs.VrlAgreeProofs.
 Import ListNotations.
 Local Open Scope string_scope.
 Local Open Scope list_scope.
@@ -90,18 +90,23 @@ Theorem C20_agree_short : forall w : list text,
 Proof. exact agree_short. Qed.
 Print Assumptions C20_agree_short.
 
-(* Full statement (not proved for unbounded texts; C20_render_agree and C20_agree_short are the proved parts):
-     forall s, vrl_modelled s = true -> template_syntax s = false ->
-               forall a b, vrl_path s = Some a -> parse_target_path s = POk b -> a = b.  *)
+(* All path parsers agree: on EVERY text free of template syntax (no `{{`, no backslash directly before `}}`),
+   if the VRL source reading and the path-string parser both accept the text, they denote the same target path.
+   (Texts accepted by only one of the two grammars - leading whitespace, `%.a`, `.a-b`, `[ 0 ]`, ... - are
+   outside the statement by construction; notes/C20.md lists them.) *)
+Theorem C20_agree : forall (s : text) (a b : tpath),
+  template_syntax s = false -> vrl_path s = Some a -> parse_target_path s = POk b -> a = b.
+Proof. exact agree_general. Qed.
+Print Assumptions C20_agree.
 
-(* KNOWN FINDING (C20-template-in-quoted-field).  Without the exclusion the agreement is false: a quoted field
+(* KNOWN FINDING (C20-template-in-quoted-field).  `template_syntax` is the known class; inside it the agreement is false: a quoted field
    is a VRL string literal and goes through template processing, which rewrites `{{x}}` to `{{ x }}` and eats the
    backslash of `\}}`; the path-string parser keeps the text.  Witnesses: dot dquote {{x}} dquote, and
    dot dquote backslash backslash }} dquote (the latter is what the renderer writes for the field `\}}`). *)
 Theorem C20_template_refuted :
   (exists (s : text) (a b : tpath), s = hx "2e227b7b787d7d22" /\ vrl_modelled s = true /\ has_template_open s = true
       /\ vrl_path s = Some a /\ parse_target_path s = POk b /\ a <> b)
-  /\ (exists (s : text) (a b : tpath), s = hx "2e225c5c7d7d22" /\ vrl_modelled s = true
+  /\ (exists (s : text) (a b : tpath), s = hx "2e225c5c7d7d22" /\ vrl_modelled s = true /\ has_bsl_close s = true
       /\ vrl_path s = Some a /\ parse_target_path s = POk b /\ a <> b
       /\ (exists p, b = (Event, p) /\ render_target (Event, p) = s)).
 Proof.
